@@ -16,21 +16,25 @@ S1(x) == SV(StrCps(x))
 Shapes == << <<>>, <<1>>, <<2>>, <<3>>, <<1, 1>>, <<1, 2>>, <<1, 3>>, <<2, 2>>, <<2, 3>>, <<3, 3>>,
              <<1, 1, 1>>, <<1, 1, 2>>, <<1, 1, 3>>, <<1, 2, 2>>, <<1, 2, 3>>, <<1, 3, 3>>, <<2, 2, 2>>, <<2, 2, 3>>, <<2, 3, 3>>, <<3, 3, 3>> >>
 Orgs == { [id |-> 1, name |-> S1("x"), k |-> IV(1)], [id |-> 2, name |-> NULL, k |-> NULL] }
-Authors == { [id |-> 1, name |-> S1("ann"), age |-> IV(30), rank |-> IV(1), org |-> IV(1)],
-             [id |-> 2, name |-> S1("bob"), age |-> NULL, rank |-> IV(2), org |-> IV(2)],
-             [id |-> 3, name |-> NULL, age |-> IV(5), rank |-> IV(3), org |-> NULL],
-             [id |-> 4, name |-> S1("cy"), age |-> IV(1), rank |-> IV(1), org |-> IV(1)],
-             [id |-> 5, name |-> S1("ann"), age |-> IV(0), rank |-> IV(2), org |-> IV(2)] }
+PostInfos == { [id |-> 1, tag |-> S1("p")], [id |-> 2, tag |-> NULL] }
+AuthorInfos == { [id |-> 1, tag |-> S1("a")], [id |-> 2, tag |-> S1("p")] }
+Authors == { [id |-> 1, name |-> S1("ann"), age |-> IV(30), rank |-> IV(1), org |-> IV(1), info |-> IV(1)],
+             [id |-> 2, name |-> S1("bob"), age |-> NULL, rank |-> IV(2), org |-> IV(2), info |-> NULL],
+             [id |-> 3, name |-> NULL, age |-> IV(5), rank |-> IV(3), org |-> NULL, info |-> IV(2)],
+             [id |-> 4, name |-> S1("cy"), age |-> IV(1), rank |-> IV(1), org |-> IV(1), info |-> IV(2)],
+             [id |-> 5, name |-> S1("ann"), age |-> IV(0), rank |-> IV(2), org |-> IV(2), info |-> IV(1)] }
 Titles == <<S1("a"), S1("b"), NULL, S1("a%")>>
 Ns == <<IV(1), IV(-3), NULL, IV(0), IV(2)>>
 AuthorOf(i) == LET r == (i + Inst) % 7 IN IF r = 1 \/ r = 6 THEN NULL ELSE IV(IF r = 0 THEN 1 ELSE r - 1)
-Posts == { [id |-> i, title |-> Titles[1 + (i % 4)], n |-> Ns[1 + ((i + Inst) % 5)], author |-> AuthorOf(i)] : i \in 1..20 }
+InfoOf(i) == IF i % 3 = 0 THEN NULL ELSE IV(i % 3)
+Posts == { [id |-> i, title |-> Titles[1 + (i % 4)], n |-> Ns[1 + ((i + Inst) % 5)], author |-> AuthorOf(i), info |-> InfoOf(i)] : i \in 1..20 }
 CommentId(i, j) == 3 * (i - 1) + j
 Comments == { [id |-> CommentId(i, j), text |-> IF j % 2 = 0 THEN S1("x") ELSE S1("y"), k |-> IV(Shapes[i][j]), post |-> IV(i)] :
                 <<i, j>> \in { p \in (1..20) \X (1..3) : p[2] <= Len(Shapes[p[1]]) } }
             \cup { [id |-> 61, text |-> S1("x"), k |-> IV(1), post |-> NULL], [id |-> 62, text |-> NULL, k |-> IV(3), post |-> NULL] }
 Editors == { <<i, a>> \in (1..20) \X (1..5) : ((i + Inst) * (a + 1)) % 3 = 0 /\ i % 5 # 0 } \cup { <<10, a>> : a \in 1..5 }
-DB == [Org |-> Orgs, Author |-> Authors, Post |-> Posts, Comment |-> Comments, editors |-> Editors]
+DB == [Org |-> Orgs, Author |-> Authors, Post |-> Posts, Comment |-> Comments, editors |-> Editors,
+       PostInfo |-> PostInfos, AuthorInfo |-> AuthorInfos]
 
 P(root, segs) == LET F[i \in 0..Len(segs)] == IF i = 0 THEN Id0(root) ELSE Attr(F[i - 1], segs[i]) IN F[Len(segs)]
 HB == Hole("B")  HC == Hole("C")  HE == Hole("E")  HP == Hole("P")
@@ -41,6 +45,8 @@ PostAtoms == { Cmp("eq", Id0("n"), IntL(1)), Cmp("eq", Id0("title"), SL("a")), C
                Cmp("ne", P("author", <<"name">>), NullL), Cmp("gt", P("author", <<"age">>), IntL(1)),
                Cmp("eq", P("author", <<"org", "name">>), SL("x")), Cmp("eq", P("author", <<"org", "name">>), NullL),
                Cmp("ne", P("author", <<"org", "k">>), IntL(1)), Cmp("le", P("author", <<"rank">>), Id0("n")),
+               Cmp("eq", P("info", <<"tag">>), SL("p")), Cmp("eq", P("author", <<"info", "tag">>), SL("p")),
+               Bool("and", Cmp("eq", P("info", <<"tag">>), SL("p")), Cmp("ne", P("author", <<"info", "tag">>), SL("p"))),
                Coll(Id0("comments"), "any", None), Coll(Id0("authors"), "any", None), Coll(P("author", <<"posts">>), "any", None),
                Coll(P("author", <<"org", "authors">>), "any", Lam(eV, Cmp("gt", P("e", <<"rank">>), IntL(2)))) }
 \* simple lambdas as atoms, so that sibling lambdas over the same collection meet at the smallest bound
